@@ -137,6 +137,11 @@ def insertSorted (x : Int) : List Int → List Int
   | y :: ys => if x ≤ y then x :: y :: ys else y :: insertSorted x ys
 def sortInts (xs : List Int) : List Int := xs.foldr insertSorted []
 
+/-- last element of a list, `prev` if it is empty. -/
+def lastD : Int → List Int → Int
+  | prev, [] => prev
+  | _, x :: xs => lastD x xs
+
 /-- consecutive values differ, starting from `prev`. -/
 def chainDistinct : Int → List Int → Bool
   | _, [] => true
@@ -149,7 +154,7 @@ def accepts (c : Cfg) (prev : Int) (prevUpd : Bool) (o : Obs) : Option String :=
   if o.target < c.min then some "below-min"
   else if o.target > c.max then some "above-max"
   else if o.target ≤ 0 then some "non-positive"
-  else if (o.pacer.getLast?.getD prev) ≠ o.target then some "getter-differs-from-last-pacer-rate"
+  else if lastD prev o.pacer ≠ o.target then some "getter-differs-from-last-pacer-rate"
   else if sortInts o.pacer ≠ o.cbs then some "callbacks-differ-from-pacer-rates"
   else if !chainDistinct prev o.pacer then some "publish-without-change"
   else if o.pacer.any (fun p => p < c.min || p > c.max) then some "published-out-of-bounds"
@@ -162,5 +167,11 @@ def accepts (c : Cfg) (prev : Int) (prevUpd : Bool) (o : Obs) : Option String :=
       else if !((s.usage = .over && s.state = .decrease) || (s.usage = .normal && s.state = .increase)) then
         some "state-not-transition-of-usage"
       else none
+
+/-- the observation the harness makes after a batch of events that led from `st` to `st'`:
+the getter, the pacer calls and (sorted) callback values since `st`, the stats. -/
+def observe (st st' : St) : Obs :=
+  { target := st'.latest, pacer := st'.pacer.drop st.pacer.length,
+    cbs := sortInts (st'.cbs.drop st.cbs.length), stats := st'.stats }
 
 end Interceptor.Gcc
